@@ -6,6 +6,7 @@ import Pymc.Model.Key
 import Pymc.Model.Rendezvous
 import Pymc.Model.Readers
 import Pymc.Model.ServerSpec
+import Pymc.Model.Client
 /-! Line-protocol driver of the Lean models (one request per line, one reply line per request).
     Rejects what it cannot parse (`bad-op`), never defaults. -/
 open Bytes
@@ -169,6 +170,161 @@ def handleReader (ws : List String) : Option String := do
     pure (showReader (Readers.readsegmentOrig tok buf evs))
   | _ => none
 
+/-! ### L3 client / server (stateful) -/
+structure DState where
+  servers : List (Nat × AbsMap.St) := []
+
+def DState.get (d : DState) (i : Nat) : AbsMap.St := ((d.servers.find? (·.1 = i)).map (·.2)).getD {}
+def DState.set (d : DState) (i : Nat) (s : AbsMap.St) : DState :=
+  { d with servers := (i, s) :: d.servers.filter (·.1 ≠ i) }
+
+def parseVal (s : String) : Option Wire.Val :=
+  if s.startsWith "b:" then (Bytes.ofHex (s.drop 2).toString).map .bytes
+  else if s.startsWith "t:" then (natList (s.drop 2).toString).map .text
+  else if s.startsWith "i:" then (s.drop 2).toString.toInt?.map .int
+  else none
+
+def parseIntArg (s : String) : Option Wire.IntArg :=
+  if s = "x" then some .nonInt
+  else if s.startsWith "i:" then (s.drop 2).toString.toInt?.map .int
+  else none
+
+def parseCasArg (s : String) : Option (Option Wire.CasArg) :=
+  if s = "n" then some none
+  else if s = "o" then some (some .other)
+  else if s.startsWith "i:" then (s.drop 2).toString.toInt?.map fun i => some (.int i)
+  else if s.startsWith "s:" then (natList (s.drop 2).toString).map fun l => some (.str l)
+  else if s.startsWith "b:" then (Bytes.ofHex (s.drop 2).toString).map fun b => some (.bytes b)
+  else none
+
+def parseOptBool (s : String) : Option (Option Bool) :=
+  if s = "n" then some none else if s = "1" then some (some true) else if s = "0" then some (some false) else none
+
+def parseKeys (s : String) : Option (List Key.K) :=
+  if s = "-" then some [] else (s.splitOn "|").mapM parseKey
+
+def parseItems (s : String) : Option (List (Key.K × Wire.Val)) :=
+  if s = "-" then some [] else (s.splitOn "|").mapM fun it =>
+    match it.splitOn "~" with
+    | [k, v] => do pure ((← parseKey k), (← parseVal v))
+    | _ => none
+
+def parseSVerb (s : String) : Option Wire.SVerb :=
+  match s with
+  | "set" => some .set | "add" => some .add | "replace" => some .replace | "append" => some .append
+  | "prepend" => some .prepend | "cas" => some .cas | _ => none
+
+def parseCfg (ws : List String) : Option (Wire.Cfg × Bool) := do
+  let c ← arg ws "cfg"          -- `<au><utf8><dnr><ign>:<pfxhex>`
+  match c.splitOn ":" with
+  | [fl, pfx] =>
+    match fl.toList with
+    | [a, u, d, i] => do
+      let p ← Bytes.ofHex pfx
+      pure ({ au := a = '1', utf8 := u = '1', defaultNoreply := d = '1', pfx := p }, i = '1')
+    | _ => none
+  | _ => none
+
+def parseCall (ws : List String) : Option Client.Call := do
+  let op ← arg ws "op"
+  match op with
+  | "get" => do pure (.get (← parseKey (← arg ws "k")))
+  | "gets" => do pure (.gets (← parseKey (← arg ws "k")))
+  | "gat" => do pure (.gat (← parseKey (← arg ws "k")) (← parseIntArg (← arg ws "e")))
+  | "gats" => do pure (.gats (← parseKey (← arg ws "k")) (← parseIntArg (← arg ws "e")))
+  | "get_many" => do pure (.getMany (← parseKeys (← arg ws "ks")))
+  | "gets_many" => do pure (.getsMany (← parseKeys (← arg ws "ks")))
+  | "set_many" => do
+    let fl ← arg ws "fl"
+    let flags ← if fl = "n" then some none else fl.toInt?.map some
+    pure (.setMany (← parseItems (← arg ws "items")) (← parseIntArg (← arg ws "e")) (← parseOptBool (← arg ws "nr")) flags)
+  | "delete" => do pure (.delete (← parseKey (← arg ws "k")) (← parseOptBool (← arg ws "nr")))
+  | "delete_many" => do pure (.deleteMany (← parseKeys (← arg ws "ks")) (← parseOptBool (← arg ws "nr")))
+  | "incr" => do pure (.arith true (← parseKey (← arg ws "k")) (← parseIntArg (← arg ws "d")) ((← arg ws "nr") = "1"))
+  | "decr" => do pure (.arith false (← parseKey (← arg ws "k")) (← parseIntArg (← arg ws "d")) ((← arg ws "nr") = "1"))
+  | "touch" => do pure (.touch (← parseKey (← arg ws "k")) (← parseIntArg (← arg ws "e")) (← parseOptBool (← arg ws "nr")))
+  | "flush_all" => do pure (.flushAll (← parseIntArg (← arg ws "d")) (← parseOptBool (← arg ws "nr")))
+  | "version" => some .version
+  | "quit" => some .quit
+  | "raw" => do pure (.raw (← Bytes.ofHex (← arg ws "cmd")) (← Bytes.ofHex (← arg ws "tok")))
+  | v => do
+    let verb ← parseSVerb v
+    let fl ← arg ws "fl"
+    let flags ← if fl = "n" then some none else fl.toInt?.map some
+    pure (.store verb (← parseKey (← arg ws "k")) (← parseVal (← arg ws "v")) (← parseIntArg (← arg ws "e"))
+      (← parseOptBool (← arg ws "nr")) flags (← parseCasArg (← arg ws "cas")))
+
+def showKey : Key.K → String
+  | .bytes b => "b:" ++ Bytes.toHex b
+  | .str cps => "s:" ++ (if cps = [] then "-" else ",".intercalate (cps.map toString))
+
+def showExc : Exchange.Exc → String
+  | .illegalInput => "IllegalInput" | .unknownCommand => "UnknownCommand"
+  | .clientError _ => "ClientError" | .serverError _ => "ServerError"
+  | .unknownError _ => "UnknownError" | .unexpectedClose => "UnexpectedClose"
+  | .sock c => s!"Sock{c}" | .valueError => "ValueError" | .keyError => "KeyError" | .indexError => "IndexError"
+
+def sortStrs (l : List String) : List String := (l.toArray.qsort (· < ·)).toList
+
+def showRes : Client.Res → String
+  | .none => "None" | .bool true => "True" | .bool false => "False"
+  | .int i => s!"int:{i}" | .bytes b => "b:" ++ Bytes.toHex b
+  | .dflt => "DEFAULT" | .dfltPair => "DEFAULTPAIR"
+  | .pair v c => s!"pair:{Bytes.toHex v}:{Bytes.toHex c}"
+  | .dict kvs => "dict:{" ++ ";".intercalate (sortStrs (kvs.map fun (k, v) => showKey k ++ "=" ++ Bytes.toHex v)) ++ "}"
+  | .casDict kvs => "casdict:{" ++ ";".intercalate (sortStrs (kvs.map fun (k, v, c) => showKey k ++ "=" ++ Bytes.toHex v ++ "/" ++ Bytes.toHex c)) ++ "}"
+  | .keys ks => "keys:[" ++ ";".intercalate (ks.map showKey) ++ "]"
+
+def showExcept (r : Except Exchange.Exc Client.Res) : String :=
+  match r with
+  | .ok v => showRes v
+  | .error e => "exc:" ++ showExc e
+
+def parseExcOpt (s : String) : Option (Option Exchange.Exc) :=
+  if s = "-" then some none
+  else if s.startsWith "x" then (s.drop 1).toString.toNat?.map fun c => some (.sock c)
+  else none
+
+/-- `call cfg=… open=<0|1> op=… [cf=x<code>] [sf=x<code>] ev=…` : one public call under a socket script -/
+def handleCall (ws : List String) : Option String := do
+  let (cfg, ign) ← parseCfg ws
+  let isOpen := (← arg ws "open") = "1"
+  let c ← parseCall ws
+  let cf ← parseExcOpt ((arg ws "cf").getD "-")
+  let sf ← parseExcOpt ((arg ws "sf").getD "-")
+  let evs ← evsOf ws
+  let o := Client.call cfg ign isOpen c { connectFails := cf, sendFails := sf, evs := evs }
+  let sent := match o.sent with | some b => Bytes.toHex b | none => "none"
+  pure s!"ok res={showExcept o.res} open={if o.sockOpen then 1 else 0} conn={if o.connected then 1 else 0} sent={sent} unread={(Readers.joinData o.unread).length}"
+
+def handleStateful (d : DState) (ws : List String) : Option (DState × String) :=
+  match ws with
+  | "srv.reset" :: rest => do
+    let i ← (← arg rest "id").toNat?
+    pure (d.set i {}, "ok")
+  | "srv.advance" :: rest => do
+    let i ← (← arg rest "id").toNat?
+    let dt ← (← arg rest "dt").toNat?
+    pure (d.set i (AbsMap.advance (d.get i) dt), "ok")
+  | "srv.feed" :: rest => do
+    let i ← (← arg rest "id").toNat?
+    let data ← Bytes.ofHex (← arg rest "data")
+    match Server.feed (d.get i) data with
+    | some (s', out) => pure (d.set i s', "ok " ++ Bytes.toHex out)
+    | none => pure (d, "ok MALFORMED")
+  | "srv.parse" :: rest => do
+    let data ← Bytes.ofHex (← arg rest "data")
+    match Wire.parseAll data.length data with
+    | some reqs => pure (d, s!"ok {reqs.length} {repr reqs}".replace "\n" " ")
+    | none => pure (d, "ok MALFORMED")
+  | "cs.call" :: rest => do
+    let i ← (← arg rest "id").toNat?
+    let (cfg, _) ← parseCfg rest
+    let c ← parseCall rest
+    let (s', r, clean) := Client.onServer cfg (d.get i) c
+    pure (d.set i s', s!"ok res={showExcept r} clean={if clean then 1 else 0}")
+  | _ => none
+
 def handle (ws : List String) : String :=
   let r : Option String :=
     match ws with
@@ -190,17 +346,23 @@ def handle (ws : List String) : String :=
     | "getnode" :: rest => handleGetNode rest
     | "nodename" :: rest => handleNodeName rest
     | "reader" :: rest => handleReader rest
+    | "call" :: rest => handleCall rest
     | _ => none
   r.getD "bad-op"
 
-partial def loop (i o : IO.FS.Stream) : IO Unit := do
+partial def loop (i o : IO.FS.Stream) (d : DState) : IO Unit := do
   let line ← i.getLine
   if line.isEmpty then return ()
   let ws := (line.trimAscii.toString.splitOn " ").filter (· ≠ "")
-  o.putStrLn (handle ws)
-  loop i o
+  match handleStateful d ws with
+  | some (d', out) =>
+    o.putStrLn out
+    loop i o d'
+  | none =>
+    o.putStrLn (handle ws)
+    loop i o d
 
 def main : IO Unit := do
   let i ← IO.getStdin
   let o ← IO.getStdout
-  loop i o
+  loop i o {}
